@@ -90,7 +90,8 @@ Inductive label :=
 | WrCall (i : nat)       (* first conn.Write of the response called *)
 | Wrote (i : nat) (close err : bool)  (* response written / tunnel over; ProxyTrace.WroteResponse *)
 | TConnRefuse (i : nat)  (* (tau) 2xx to a CONNECT written with Connection: close while closing: no tunnel, no trace *)
-| SockClose (i : nat)    (* conn.Close() called on connection i (handler's defer, or Close) *)
+| SockClose (i : nat)    (* conn.Close() called on connection i by its handler (deferred) *)
+| SockCloseC (i : nat)   (* conn.Close() called on connection i by Close (one item of its loop) *)
 | TDec (i : nat)         (* (tau) deferred cnt-- *)
 | TDelete (i : nat)      (* (tau) deferred lock; delete(conns, conn); unlock *)
 (* environment *)
@@ -254,21 +255,18 @@ Definition stepf (g : gst) (l : label) : option gst :=
       end
   | SockClose i =>
       match getc g i with
-      | Some c =>
-          match pc c with
-          | CExit => option_map (setc g i) (hstep (closing g) c l)
-          | _ =>
-            (* one item of Close's `for conn := range p.conns { conn.Close() }` *)
-            match cl g with
-            | ClHolding todo =>
-                if mem_nat i todo
-                then Some (mkg (closing g) (mu g) (cnt g) (regs g) (upd (conns g) i (mark_closed c))
-                               (sd g) (ClHolding (remove_nat i todo)) (sv g) (lopen g) (ctx_exp g))
-                else None
-            | _ => None
-            end
-          end
+      | Some c => option_map (setc g i) (hstep (closing g) c l)
       | None => None
+      end
+  | SockCloseC i =>
+      (* one item of Close's `for conn := range p.conns { conn.Close() }` *)
+      match getc g i, cl g with
+      | Some c, ClHolding todo =>
+          if mem_nat i todo
+          then Some (mkg (closing g) (mu g) (cnt g) (regs g) (upd (conns g) i (mark_closed c))
+                         (sd g) (ClHolding (remove_nat i todo)) (sv g) (lopen g) (ctx_exp g))
+          else None
+      | _, _ => None
       end
   (* ---- environment ---- *)
   | CtxExpire => Some (mkg (closing g) (mu g) (cnt g) (regs g) (conns g) (sd g) (cl g) (sv g) (lopen g) true)
